@@ -172,7 +172,7 @@ func (r *c20Result) show() string {
 		return "err " + r.errCls
 	}
 	h := func(s string) string { return hx([]byte(s)) }
-	mode, ws, br := client.VerifTransport(r.remote.Transport)
+	mode, ws, br := client.VerifC20Transport(r.remote.Transport)
 	tr := "mode=" + mode + " br=" + br
 	if mode == "cdn" {
 		tr = "mode=cdn ws=" + h(ws)
@@ -225,7 +225,7 @@ func c20Monitor(o *outw, conf c20Conf, r *c20Result, ctxd map[string]any) {
 			hit("numconn-value", fmt.Sprint(r.remote.Singleplex, r.remote.NumConn), fmt.Sprint(false, op.i))
 		}
 	}
-	mode, ws, br := client.VerifTransport(r.remote.Transport)
+	mode, ws, br := client.VerifC20Transport(r.remote.Transport)
 	// Transport: `direct` or `CDN` (documented in upper case, example config in lower case: case-insensitive); default direct
 	trv := strings.ToLower(conf.str("Transport"))
 	switch {
@@ -392,7 +392,7 @@ func c20(c *ctx) {
 		if !reflect.DeepEqual(raw1, raw2) {
 			o.V("C20 syntaxes-differ", map[string]any{"from_json": fmt.Sprintf("%+v", *raw1), "from_option_string": fmt.Sprintf("%+v", *raw2), "tag": tag, "json": js, "option_string": ssv})
 		}
-		o.T("cfg.ssv s="+hx([]byte(ssv)), hx(client.VerifSsvToJson(ssv)))
+		o.T("cfg.ssv s="+hx([]byte(ssv)), hx(client.VerifC20SsvToJson(ssv)))
 		for k, raw := range []*client.RawConfig{raw1, raw2} {
 			op := c20Op(raw)
 			res := c20Process(*raw)
@@ -493,7 +493,7 @@ func c20(c *ctx) {
 					pan = fmt.Sprint(x)
 				}
 			}()
-			out = client.VerifSsvToJson(s)
+			out = client.VerifC20SsvToJson(s)
 			if strings.Contains(s, ";") && strings.Contains(s, "=") {
 				_, _ = client.ParseConfig(s)
 			}
